@@ -109,8 +109,44 @@ def assertion_order(P, chk):
                 "process_posting|has a BalanceAssertionFailure exit", b.loc(), "no BalanceAssertionFailure is ever returned", "present")
 
 
+PASS_DEFAULT = ("unwrap_or_default", "unwrap_or", "copied", "cloned", "map_or", "unwrap_or_else", "deref", "clone")
+
+
+def _held_in_commodity(b, op, depth=0):
+    """op is the amount the balance holds in the asserted commodity: self.values.get(&expected.commodity), a copy of it,
+    or zero when there is no entry"""
+    rs = prov(b, op)
+    if not rs or depth > 6:
+        return False
+    for r in rs:
+        if r.kind == "const":
+            import re
+            ds = re.findall(r"\d+", re.sub(r"_[iu](?:size|\d+)", "", str(r.name)))
+            if "ZERO" not in str(r.name) and not (ds and all(int(d) == 0 for d in ds)):
+                return False
+            continue
+        if r.kind != "call" or r.site is None:
+            return False
+        t = b.term(r.site)
+        last = str(r.name).rsplit("::", 1)[-1].split("<")[0]
+        if str(r.name).endswith("HashMap::get") or (last == "get" and "HashMap" in str(r.name)):
+            if not (q.all_roots(b, t["args"][0], lambda x: q.is_param(x, "self", ("values",))) and
+                    q.all_roots(b, t["args"][1], lambda x: q.is_param(x, "expected") and x.fields[-1:] == ("commodity",))):
+                return False
+            continue
+        if last == "default" and not t["args"]:
+            continue
+        if last in PASS_DEFAULT and t["args"] and _held_in_commodity(b, t["args"][0], depth + 1):
+            continue
+        return False
+    return True
+
+
 def assert_balance_table(P, chk):
-    b = P.body(AMT + "::assert_balance")
+    from analysis import inline
+    P.body(AMT + "::assert_balance")
+    # the lookup of the asserted commodity may live in a helper (get_part): judge assert_balance with it folded in
+    b = inline.inlined(P, AMT + "::assert_balance", inline.only_policy(("::Amount::get_part",)))
     chk.analysed(b)
     rets = []
     for i in sorted(b.live_blocks()):
@@ -140,13 +176,8 @@ def assert_balance_table(P, chk):
                             if r.kind == "call" and r.site is not None and callee_def(b.term(r.site)) == "std::ops::Sub::sub":
                                 a0, a1 = b.term(r.site)["args"]
                                 l_ok = q.all_roots(b, a0, lambda x: q.is_param(x, "expected") and x.fields[-1:] == ("value",))
-                                r_ok = q.all_roots(b, a1, lambda x: x.kind == "call" and x.name == AMT + "::get_part")
-                                if l_ok and r_ok:
-                                    gp = [x for x in prov(b, a1)][0]
-                                    gt = b.term(gp.site)
-                                    if q.all_roots(b, gt["args"][0], lambda x: q.is_param(x, "self")) and \
-                                            q.all_roots(b, gt["args"][1], lambda x: q.is_param(x, "expected") and x.fields[-1:] == ("commodity",)):
-                                        ok = True
+                                if l_ok and _held_in_commodity(b, a1):
+                                    ok = True
                 chk.require(ok, R_TAB, "assert_balance|`= X C` exact only when X - balance[C] is zero", where,
                             "zero() is returned for `= X C` without (X - self.get_part(C)).is_zero() holding",
                             "Single arm: zero() under (single.value - get_part(single.commodity)).is_zero()")
@@ -160,8 +191,10 @@ def assert_balance_table(P, chk):
             kinds["%s/diff" % (exp[0] if exp else "?")] = True
     chk.require(set(kinds) >= {"Zero/ok", "Single/ok", "Zero/diff", "Single/diff"}, R_TAB, "assert_balance|four outcomes", b.loc(),
                 "outcomes found: %s" % sorted(kinds), "zero / diff on each of the Zero and Single arms")
-    # get_part reads the entry of that commodity
-    g = P.body(AMT + "::get_part")
+    # get_part (when the lookup lives in a helper of its own) reads the entry of that commodity
+    g = P.maybe_body(AMT + "::get_part")
+    if g is None:
+        return
     chk.analysed(g)
     gets = mir.call_sites(g, ["std::collections::HashMap::get"])
     okg = len(gets) == 1 and q.all_roots(g, gets[0][1]["args"][0], lambda r: q.is_param(r, "self", ("values",))) and \
